@@ -29,9 +29,12 @@ ASSUMPTIONS = [
     "failures of serialisation as the statement lists them; a process killed during file.write is outside the "
     "statement and outside what in-process injection can show",
     "only default format options are used for the load-back clause (Config.load cannot pass options)",
+    "values of non-basic Python types (Decimal, timedelta, paths, ...) in untyped slots are in the load-back domain only "
+    "for the two formats that carry Python objects (pickle; YAML through PyYAML's Python tags, which the format uses on "
+    "purpose), and only when the save itself succeeded; strings are in the domain of a format as C04 defines it",
 ]
 REQUIRED = ["size-sweep:bson", "inject:to_basic", "inject:keyfile", "inject:encrypt", "inject:dumps", "natural:unencodable", "natural:unknown-format",
-            "natural:bad-keyfile", "natural:out-of-domain", "success-save", "sibling-save", "dest:home-relative", "save-again:removed", "save-again:replaced"]
+            "natural:bad-keyfile", "natural:out-of-domain", "success-save", "sibling-save", "python-values:yaml", "text-sweep:yaml", "secret-sweep:xor", "dest:home-relative", "save-again:removed", "save-again:replaced"]
 LEVEL_TEXT = (
     "Every step of serialisation of each generated configuration is enumerated and failed once (exhaustive over the "
     "injection points of that configuration), plus naturally failing values; the destination file is compared byte "
